@@ -233,6 +233,20 @@ pub fn cmd(args: &Args) {
                 Extra::Symlink { name: b"wal-00000000000000000006".to_vec(), target: b"wal-00000000000000000003".to_vec() },
                 Extra::File { name: vec![b'w', b'a', b'l', b'-', 0xff], content: vec![1, 2, 3] },
             ];
+            // every other history: the number the next created WAL file will get (9) is taken by a
+            // symlink, to an existing foreign file or dangling - the library must neither follow it
+            // nor create its target (an I/O error from the call is fine)
+            let mut foreign = foreign;
+            match job % 3 {
+                1 => {
+                    foreign.push(Extra::File { name: b"archive.bin".to_vec(), content: vec![9u8; 200_000] });
+                    foreign.push(Extra::Symlink { name: b"wal-00000000000000000009".to_vec(), target: b"archive.bin".to_vec() });
+                }
+                2 => {
+                    foreign.push(Extra::Symlink { name: b"wal-00000000000000000009".to_vec(), target: b"notes2.txt".to_vec() });
+                }
+                _ => {}
+            }
             materialize_extras(&foreign, &dir.path);
             let foreign_names: Vec<Vec<u8>> = foreign
                 .iter()
